@@ -5,6 +5,7 @@ package main
 // parses it with the Lean model and compares the model's own rendering with it.
 
 import (
+	"os"
 	"bytes"
 	"context"
 	"fmt"
@@ -238,11 +239,38 @@ func writePlain(gn *genetics.Genome) (string, error) {
 }
 
 func readPlain(text string) (*genetics.Genome, error) {
-	r, err := genetics.NewGenomeReader(strings.NewReader(text), genetics.PlainGenomeEncoding)
+	r, err := genomeReaderFor([]byte(text), genetics.PlainGenomeEncoding)
 	if err != nil {
 		return nil, err
 	}
 	return r.Read()
+}
+
+var readerCalls int
+
+// genomeReaderFor: every fourth reader is obtained the way an application does it - from a FILE whose name selects the
+// encoding (NewGenomeReaderFromFile / genomeEncodingFromFileName: *.yml, *.yaml -> YAML, anything else -> plain)
+func genomeReaderFor(data []byte, enc genetics.GenomeEncoding) (genetics.GenomeReader, error) {
+	readerCalls++
+	if readerCalls%4 != 0 {
+		return genetics.NewGenomeReader(bytes.NewReader(data), enc)
+	}
+	suffix := []string{".neat", ".txt", ".plain"}[readerCalls/4%3]
+	if enc == genetics.YAMLGenomeEncoding {
+		suffix = []string{".yml", ".yaml"}[readerCalls/4%2]
+	}
+	f, err := os.CreateTemp("", "gnharness_genome_*"+suffix)
+	if err != nil {
+		return genetics.NewGenomeReader(bytes.NewReader(data), enc)
+	}
+	name := f.Name()
+	_, werr := f.Write(data)
+	f.Close()
+	defer os.Remove(name) // the reader keeps its open descriptor
+	if werr != nil {
+		return genetics.NewGenomeReader(bytes.NewReader(data), enc)
+	}
+	return genetics.NewGenomeReaderFromFile(name)
 }
 
 // damage one line of a written text in a way the reader must reject or survive exactly like the model
@@ -417,7 +445,7 @@ func opIoYaml(g *G) (interface{}, []uint64, int, interface{}) {
 	var back *genetics.Genome
 	var rerr error
 	if p := recoverStr(func() {
-		r, e := genetics.NewGenomeReader(bytes.NewReader(buf.Bytes()), genetics.YAMLGenomeEncoding)
+		r, e := genomeReaderFor(buf.Bytes(), genetics.YAMLGenomeEncoding)
 		if e != nil {
 			rerr = e
 			return
